@@ -333,6 +333,41 @@ func directed(t *keyTaker) []RunSpec {
 	return out
 }
 
+// directedStoreLoss: the tombstone store turns unreadable AFTER a revocation
+// was accepted and durably recorded, with the revoked key still configured -
+// the store is then the only record of the revocation. Every harness-made
+// condition of the store is driven at a start where the root still publishes
+// the revoked form, where the key is gone, and where the fetch fails; then the
+// store is readable again and the old key comes back un-revoked.
+func directedStoreLoss(t *keyTaker) []RunSpec {
+	var out []RunSpec
+	p := func() *Key { return t.takePlain() }
+	for _, f := range dirFaults {
+		out = append(out, RunSpec{Kind: "directed", H: History{Name: "store-lost-after-revocation/" + f,
+			Keys: mats(p(), p()), ZSK: p().Mat, Config: pubs(0, 1), Steps: []Step{
+				st(0, pubs(0, 1), sigs(0, 1), "two anchors"),
+				st(1*day, pubs(rv(0), 1), sigs(rv(0), 1), "revoke A; config keeps listing it"),
+				{DtHours: 12, Keys: pubs(rv(0), 1), Sigs: sigs(rv(0), 1), Fault: f, Note: "store unreadable; A still published revoked"},
+				{DtHours: 1 * day, Keys: pubs(1), Sigs: sigs(1), Fault: f, Note: "store unreadable; A gone"},
+				{DtHours: 12, Answer: "servfail", Fault: f, Note: "store unreadable; fetch fails"},
+				st(1*day, pubs(1), sigs(1), "store readable again"),
+				st(1*day, pubs(0, 1), sigs(0, 1), "A republished un-revoked, signing"),
+			}}})
+		out = append(out, RunSpec{Kind: "directed", H: History{Name: "store-lost-after-rollover/" + f,
+			Keys: mats(p(), p()), ZSK: p().Mat, Config: pubs(0), Steps: []Step{
+				st(0, pubs(0, 1), sigs(0), "add N"),
+				st(31*day, pubs(0, 1), sigs(0, 1), "N valid"),
+				st(1*day, pubs(rv(0), 1), sigs(rv(0), 1), "revoke A (the only configured key)"),
+				st(40*day, pubs(1), sigs(1), "A gone"),
+				{DtHours: 1 * day, Keys: pubs(1), Sigs: sigs(1), Fault: f, Note: "store unreadable; A gone"},
+				{DtHours: 12, Keys: pubs(0, 1), Sigs: sigs(0, 1), Fault: f, Note: "store unreadable; A republished un-revoked"},
+				{DtHours: 12, Answer: "refused", Fault: f, Note: "store unreadable; fetch refused"},
+				st(1*day, pubs(0, 1), sigs(0, 1), "store readable again; A still published"),
+			}}})
+	}
+	return out
+}
+
 // ---- random histories -------------------------------------------------------------
 
 var dtChoices = []int{0, 1, 6, 24, 24, 5 * day, 10 * day, 29 * day, 30*day - 1, 30 * day, 30*day + 1, 31 * day,
